@@ -97,6 +97,10 @@ def tinfo(types, key):
         base = tinfo(types, td['of'])
         return TInfo('leaf', True, _cplx_dtype(base.dtype), base.shape,
                      discr=base.discr, key=key)
+    if kind == 'resize_of':
+        base = tinfo(types, td['of'])
+        return TInfo('leaf', base.cplx, base.dtype, td['shape'], discr=True,
+                     key=key)
     if kind == 'prod':
         parts = list(td['of'])
         infos = [tinfo(types, p) for p in parts]
@@ -154,6 +158,10 @@ class Env(object):
             s = self.set(td['of']).real_space
         elif kind == 'complex_of':
             s = self.set(td['of']).complex_space
+        elif kind == 'resize_of':
+            s = odl.ResizingOperator(self.set(td['of']),
+                                     ran_shp=tuple(td['shape']),
+                                     offset=tuple(td['offset'])).range
         elif kind in ('prod', 'power'):
             kwargs = {}
             w = td.get('weighting')
@@ -187,6 +195,14 @@ class Env(object):
     def element(self, key, val):
         """ODL element of ``set(key)`` holding NumPy value ``val`` (copy)."""
         return to_odl(self.set(key), val)
+
+    def zero_value(self, key):
+        ti = self.info(key)
+        if ti.cat == 'field':
+            return 0j if ti.cplx else 0.0
+        if ti.cat == 'prod':
+            return [self.zero_value(p) for p in ti.parts]
+        return np.zeros(ti.shape, dtype=ti.dtype)
 
 
 def to_odl(space, val):
@@ -380,6 +396,86 @@ def values(draw, types, key, lo=-2.0, hi=2.0, positive=False):
 
 
 # --------------------------------------------------------------------------
+# type tables
+
+@st.composite
+def weighting_descs(draw, shape, kinds):
+    k = draw(st.sampled_from(kinds))
+    if k == 'none':
+        return None
+    if k == 'const':
+        return {'type': 'const',
+                'value': draw(st.sampled_from([2.0, 0.5, 1.5, 3.0, 0.25]))}
+    size = int(np.prod(shape, dtype=int))
+    vals = draw(st.lists(st.sampled_from([1.0, 2.0, 0.5, 1.5, 3.0]),
+                         min_size=size, max_size=size))
+    return {'type': 'array', 'data': np.array(vals).reshape(shape).tolist()}
+
+
+@st.composite
+def base_types(draw, precs=('64', '64', '64', '32'), pspaces=False):
+    """Type table: X (tensor / discr, real / complex, weighted), Y (second
+    1-D tensor space), F (field of X) and, for complex X, Xr (real space of
+    X) and R (the reals).  With ``pspaces``: XX (power of X, weighted or
+    not), P (X x Y), Pw (X x Y with array weighting) and, for discretized X,
+    G (range of the gradient)."""
+    cplx = draw(st.sampled_from([False, False, True]))
+    prec = draw(st.sampled_from(list(precs)))
+    dtype = ('complex' + {'64': '128', '32': '64'}[prec]) if cplx \
+        else 'float' + prec
+    skind = draw(st.sampled_from(['tensor', 'tensor', 'discr']))
+    if draw(st.sampled_from([True] + [False] * 4)):
+        shape = draw(st.sampled_from([[2, 2], [2, 3], [3, 2], [1, 3],
+                                      [3, 3]]))
+    else:
+        shape = [draw(st.sampled_from([1, 2, 3, 3, 4, 5]))]
+    if skind == 'tensor':
+        X = {'kind': 'tensor', 'shape': shape, 'dtype': dtype,
+             'exponent': 2.0,
+             'weighting': draw(weighting_descs(
+                 shape, ['none', 'none', 'const', 'array'] if prec == '64'
+                 else ['none', 'const']))}
+    else:
+        nob = draw(st.booleans()) and min(shape) > 1
+        cell = draw(st.sampled_from([1.0, 0.5, 0.25, 2.0]))
+        X = {'kind': 'discr', 'min': [0.0] * len(shape),
+             'max': [cell * (s - 1 if nob else s) for s in shape],
+             'shape': shape, 'dtype': dtype, 'exponent': 2.0,
+             'nodes_on_bdry': nob,
+             'weighting': draw(weighting_descs(
+                 shape, ['none', 'none', 'none', 'const']))}
+    m = draw(st.sampled_from([1, 2, 3, 4]))
+    Y = {'kind': 'tensor', 'shape': [m], 'dtype': dtype, 'exponent': 2.0,
+         'weighting': draw(weighting_descs([m], ['none', 'none', 'const']))}
+    X['fkey'] = Y['fkey'] = 'F'
+    types = {'X': X, 'Y': Y,
+             'F': {'kind': 'field_of', 'of': 'X', 'fkey': 'F'}}
+    if cplx:
+        types['Xr'] = {'kind': 'real_of', 'of': 'X', 'fkey': 'R'}
+        types['R'] = {'kind': 'reals', 'fkey': 'R'}
+    if pspaces:
+        n = draw(st.sampled_from([2, 2, 3, 1]))
+        wk = draw(st.sampled_from(['none', 'none', 'const', 'array']))
+        w = None
+        if wk == 'const':
+            w = {'type': 'const', 'value': draw(st.sampled_from([2.0, 0.5]))}
+        elif wk == 'array':
+            w = {'type': 'array', 'data': [1.5, 0.5, 2.0][:n]}
+        types['XX'] = {'kind': 'power', 'of': 'X', 'n': n, 'weighting': w,
+                       'exponent': 2.0, 'fkey': 'F', 'default': w is None}
+        types['P'] = {'kind': 'prod', 'of': ['X', 'Y'], 'weighting': None,
+                      'fkey': 'F', 'default': True}
+        types['Pw'] = {'kind': 'prod', 'of': ['X', 'Y'], 'fkey': 'F',
+                       'weighting': {'type': 'array', 'data': [2.0, 0.5]},
+                       'default': False}
+        if skind == 'discr' and min(shape) >= 3:
+            types['G'] = {'kind': 'power', 'of': 'X', 'n': len(shape),
+                          'weighting': None, 'exponent': 2.0, 'fkey': 'F',
+                          'default': True, 'grad_of': 'X'}
+    return types
+
+
+# --------------------------------------------------------------------------
 # leaves
 
 UFUNCS_SMOOTH = ['sin', 'cos', 'exp', 'square', 'sinh', 'cosh']
@@ -397,7 +493,7 @@ LINEAR_LEAVES = {'identity', 'scaling', 'matrix', 'multiply', 'multiply_field',
                  'imagpart', 'cembed', 'negative', 'fscaling', 'quadlin',
                  'fscalingfunc', 'zerof', 'pwinner', 'pwsum', 'lincomb',
                  'ufunc_add', 'ufunc_subtract', 'gradient', 'divergence',
-                 'resize'}
+                 'resize', 'compproj'}
 
 
 def _is_real_of(types, a, b):
@@ -448,11 +544,36 @@ def leaf_kinds(types, dom, ran, mode='c04'):
                     if len(D.shape) == 1:
                         out.append('quad')
         if not R.cplx and (ran == types[dom]['fkey'] or
-                           types[ran]['kind'] == 'reals'):
+                           types[ran]['kind'] == 'reals') and \
+                not (c06 and D.cplx):
+            # (C06: on complex spaces the derivative of Norm/DistOperator is
+            # known finding C06-K1; kept out of trees, present in the zoo)
             out += ['norm', 'dist']
     elif D.cat == 'field' and R.cat == 'leaf':
         if types[ran]['fkey'] == dom:
             out.append('multiply_field')
+    elif D.cat == 'prod' and same:
+        out += ['identity', 'scaling', 'zero']
+    elif D.cat == 'prod' and R.cat == 'leaf':
+        td = types[dom]
+        if td['kind'] == 'power' and td['of'] == ran:
+            out += ['pwinner', 'pwsum']
+            if not D.cplx:
+                out += ['pwnorm', 'pwnorm', 'pwnorm']
+            if int(td['n']) == 2 and td.get('default'):
+                out += ['lincomb', 'ufunc_add', 'ufunc_subtract']
+            if td.get('grad_of') == ran:
+                out += ['divergence', 'divergence']
+        if ran in D.parts:
+            out.append('compproj')
+    elif D.cat == 'leaf' and R.cat == 'prod':
+        if types[ran].get('grad_of') == dom:
+            out += ['gradient', 'gradient']
+    elif D.cat == 'prod' and R.cat == 'field':
+        if ran == types[dom]['fkey']:
+            out += ['inner']
+            if not R.cplx:
+                out += ['norm', 'dist']
     elif D.cat == 'field' and same:
         out += ['fscaling', 'fpower']
         if not c06:
@@ -490,7 +611,9 @@ def leaves(draw, types, dom, ran, mode='c04'):
         args['zero'] = draw(st.sampled_from([False] * 5 + [True]))
     elif kind == 'ufunc':
         names = list(UFUNCS_SMOOTH)
-        if mode == 'c04':
+        if mode == 'c04' and not D.cplx:
+            # (on complex spaces only entire functions: arctan has branch
+            # cuts where the sign of a zero decides the value)
             names += UFUNCS_C04_EXTRA
         args['name'] = draw(st.sampled_from(names))
     elif kind == 'power':
@@ -523,6 +646,34 @@ def leaves(draw, types, dom, ran, mode='c04'):
             args['c'] = draw(st.sampled_from([0.0, 1.5, -2.0]))
         elif kind == 'constf':
             args['c'] = draw(st.sampled_from([0.0, 1.5, -2.0, 3.0]))
+    elif kind == 'pwnorm':
+        td = types[dom]
+        n = int(td['n'])
+        args['exponent'] = draw(st.sampled_from([None, 2.0, 2.0, 1.0, 1.5,
+                                                 3.0]))
+        args['weighting'] = draw(st.sampled_from(
+            [None, None, 2.0, [1.0, 2.0, 0.5][:n], [3.0, 1.0, 1.5][:n]]))
+    elif kind == 'pwinner':
+        args['v'] = draw(values(types, dom))
+        n = int(types[dom]['n'])
+        args['weighting'] = draw(st.sampled_from(
+            [None, None, 2.0, [1.0, 2.0, 0.5][:n]]))
+    elif kind == 'pwsum':
+        n = int(types[dom]['n'])
+        args['weighting'] = draw(st.sampled_from(
+            [None, None, 2.0, [1.0, 2.0, 0.5][:n]]))
+    elif kind == 'lincomb':
+        args['a'] = draw(scalars(D.cplx))
+        args['b'] = draw(scalars(D.cplx))
+    elif kind in ('gradient', 'divergence'):
+        args['method'] = draw(st.sampled_from(DIFF_METHODS))
+        args['pad_mode'] = draw(st.sampled_from(DIFF_PADS))
+        args['pad_const'] = 0.0
+        if args['pad_mode'] == 'constant' and draw(st.booleans()):
+            args['pad_const'] = draw(st.sampled_from([1.0, -0.5, 2.0]))
+    elif kind == 'compproj':
+        args['index'] = draw(st.sampled_from(
+            [i for i, p in enumerate(D.parts) if p == ran]))
     elif kind == 'fscalingfunc':
         fk = 'func'
         args['s'] = draw(scalars(D.cplx))
@@ -622,6 +773,30 @@ def build_leaf(env, node):
         return S.ScalingFunctional(D, scalar_value(a['s']))
     if kind == 'ffunc':
         return getattr(odl.ufunc_ops, a['name'])(D)
+    if kind == 'pwnorm':
+        return odl.PointwiseNorm(D, exponent=a.get('exponent'),
+                                 weighting=a.get('weighting'))
+    if kind == 'pwinner':
+        v = env.element(node['dom'], env.np_value(node['dom'], a['v']))
+        return odl.PointwiseInner(D, v, weighting=a.get('weighting'))
+    if kind == 'pwsum':
+        return odl.PointwiseSum(D, weighting=a.get('weighting'))
+    if kind == 'lincomb':
+        return odl.LinCombOperator(R, scalar_value(a['a']),
+                                   scalar_value(a['b']))
+    if kind == 'ufunc_add':
+        return odl.ufunc_ops.add(R)
+    if kind == 'ufunc_subtract':
+        return odl.ufunc_ops.subtract(R)
+    if kind == 'gradient':
+        return odl.Gradient(D, method=a['method'], pad_mode=a['pad_mode'],
+                            pad_const=a['pad_const'])
+    if kind == 'divergence':
+        return odl.Divergence(range=R, method=a['method'],
+                              pad_mode=a['pad_mode'],
+                              pad_const=a['pad_const'])
+    if kind == 'compproj':
+        return odl.ComponentProjection(D, int(a['index']))
     ext = EXTRA_LEAF_BUILDERS.get(kind)
     if ext is not None:
         return ext(env, node)
@@ -651,10 +826,46 @@ def leaf_is_linear(node):
 # --------------------------------------------------------------------------
 # trees
 
+def pspace_ctors(types, dom, ran, pairs):
+    """Product-space constructors able to produce ``dom -> ran``."""
+    D, R = tinfo(types, dom), tinfo(types, ran)
+    out = []
+    # (the product-space operator classes are documented to support neither
+    # weighted product spaces nor fields as components)
+    ddef = D.cat == 'prod' and bool(types[dom].get('default'))
+    rdef = R.cat == 'prod' and bool(types[ran].get('default'))
+    if rdef and D.cat != 'field' and \
+            all((dom, p) in pairs for p in R.parts):
+        out.append('broadcast')
+    if ddef and R.cat != 'field' and \
+            all((p, ran) in pairs for p in D.parts):
+        out.append('reduction')
+    if ddef and rdef and \
+            len(D.parts) == len(R.parts) and \
+            all((p, q) in pairs for p, q in zip(D.parts, R.parts)):
+        out.append('diagonal')
+    if ddef and rdef and \
+            all(any((p, q) in pairs for p in D.parts) for q in R.parts) and \
+            all(any((p, q) in pairs for q in R.parts) for p in D.parts):
+        out.append('pspaceop')
+    return out
+
+
 def inhabited_pairs(types, mode):
     keys = sorted(types)
-    return {(d, r) for d in keys for r in keys
-            if leaf_kinds(types, d, r, mode)}
+    pairs = {(d, r) for d in keys for r in keys
+             if leaf_kinds(types, d, r, mode)}
+    if any(tinfo(types, k).cat == 'prod' for k in keys):
+        changed = True
+        while changed:
+            changed = False
+            for d in keys:
+                for r in keys:
+                    if (d, r) not in pairs and \
+                            pspace_ctors(types, d, r, pairs):
+                        pairs.add((d, r))
+                        changed = True
+    return pairs
 
 
 def _field_of(types, key):
@@ -669,17 +880,25 @@ def trees(draw, types, dom, ran, depth, mode='c04', pairs=None,
         pairs = inhabited_pairs(types, mode)
     if (dom, ran) not in pairs:
         raise HarnessError('uninhabited type {} -> {}'.format(dom, ran))
-    if depth <= 0:
-        return draw(leaves(types, dom, ran, mode))
-
     D, R = tinfo(types, dom), tinfo(types, ran)
+    pctors = pspace_ctors(types, dom, ran, pairs) \
+        if 'prod' in (D.cat, R.cat) else []
+    has_leaf = bool(leaf_kinds(types, dom, ran, mode))
+    if depth <= 0 and has_leaf:
+        return draw(leaves(types, dom, ran, mode))
+    if depth <= 0 or (pctors and draw(st.sampled_from([True, False, False]))):
+        return draw(_pspace_node(types, dom, ran, max(depth, 1), mode, pairs,
+                                 pctors))
+
     fkey_ran = _field_of(types, ran)
     fkey_dom = _field_of(types, dom)
     ran_space = R.cat != 'field'
     dom_space = D.cat != 'field'
 
-    rules = ['leaf', 'sum', 'sum', 'diff', 'neg', 'pos', 'lscal', 'lscal',
+    rules = ['sum', 'sum', 'diff', 'neg', 'pos', 'lscal', 'lscal',
              'rscal', 'rscal', 'rscal', 'div', 'pwprod', 'addscal']
+    if has_leaf:
+        rules.append('leaf')
     mids = [m for m in sorted(types) if (dom, m) in pairs and (m, ran) in pairs]
     # prefer space-valued intermediate types (field mids funnel everything
     # through the few field leaves)
@@ -700,6 +919,8 @@ def trees(draw, types, dom, ran, depth, mode='c04', pairs=None,
     if ctor_weights:
         rules = [r for r in rules for _ in range(ctor_weights.get(r, 1))]
     rule = draw(st.sampled_from(rules))
+    if not has_leaf and not pctors:
+        raise HarnessError('uninhabited {} -> {}'.format(dom, ran))
 
     def sub(d=dom, r=ran, dep=None):
         dep = depth - 1 if dep is None else dep
@@ -751,6 +972,10 @@ def trees(draw, types, dom, ran, depth, mode='c04', pairs=None,
                 real_linear_only(types, node['a'])):
             # operators C^n -> R^n flagged linear are only real-linear; ODL
             # rewrites A*a -> a*A for them, which needs a real scalar
+            scplx = False
+        if scplx and mode == 'c06' and nonholomorphic(types, node['a']):
+            # known finding C06-K4 (derivative of A*a for complex a and a
+            # non-holomorphic A): excluded by construction
             scplx = False
         classes = None
         if D.cat == 'field' and node['a']['fk'] == 'func':
@@ -834,6 +1059,51 @@ def trees(draw, types, dom, ran, depth, mode='c04', pairs=None,
         node['fk'] = 'func'
         return node
     raise HarnessError('unknown rule ' + rule)
+
+
+@st.composite
+def _pspace_node(draw, types, dom, ran, depth, mode, pairs, pctors):
+    """Node built by a product-space operator class."""
+    D, R = tinfo(types, dom), tinfo(types, ran)
+    ctor = draw(st.sampled_from(pctors))
+    node = {'op': ctor, 'dom': dom, 'ran': ran, 'fk': 'op', 'how': 'ctor'}
+
+    def sub(d, r):
+        return draw(trees(types, d, r, draw(st.sampled_from(
+            list(range(depth)))), mode, pairs))
+
+    if ctor == 'broadcast':
+        node['kids'] = [sub(dom, p) for p in R.parts]
+    elif ctor == 'reduction':
+        node['kids'] = [sub(p, ran) for p in D.parts]
+    elif ctor == 'diagonal':
+        node['kids'] = [sub(p, q) for p, q in zip(D.parts, R.parts)]
+        node['how'] = draw(st.sampled_from(['ctor', 'kwargs']))
+        if not (types[dom].get('default') and types[ran].get('default')):
+            node['how'] = 'kwargs'
+    else:
+        nr, nc = len(R.parts), len(D.parts)
+        node['shape'] = [nr, nc]
+        kids = [None] * (nr * nc)
+        # one entry per row and per column at least, then random extras
+        for i, q in enumerate(R.parts):
+            cols = [j for j, p in enumerate(D.parts) if (p, q) in pairs]
+            kids[i * nc + draw(st.sampled_from(cols))] = True
+        for j, p in enumerate(D.parts):
+            if not any(kids[i * nc + j] for i in range(nr)):
+                rows = [i for i, q in enumerate(R.parts) if (p, q) in pairs]
+                kids[draw(st.sampled_from(rows)) * nc + j] = True
+        for i, q in enumerate(R.parts):
+            for j, p in enumerate(D.parts):
+                if kids[i * nc + j] is None and (p, q) in pairs and \
+                        draw(st.sampled_from([False, False, True])):
+                    kids[i * nc + j] = True
+        node['kids'] = [sub(D.parts[k % nc], R.parts[k // nc]) if kids[k]
+                        else None for k in range(nr * nc)]
+        node['how'] = draw(st.sampled_from(['kwargs', 'kwargs', 'infer']))
+        if not (types[dom].get('default') and types[ran].get('default')):
+            node['how'] = 'kwargs'
+    return node
 
 
 # --------------------------------------------------------------------------
@@ -948,6 +1218,29 @@ def _build_node(env, b):
     if op == 'leaf':
         b.obj = build_leaf(env, node)
         return b
+    if op in ('broadcast', 'reduction', 'diagonal', 'pspaceop'):
+        ops = [None if k is None else k.obj for k in b.kids]
+        if op == 'broadcast':
+            b.obj = odl.BroadcastOperator(*ops)
+        elif op == 'reduction':
+            b.obj = odl.ReductionOperator(*ops)
+        elif op == 'diagonal':
+            if node['how'] == 'kwargs':
+                b.obj = odl.DiagonalOperator(*ops,
+                                             domain=env.set(node['dom']),
+                                             range=env.set(node['ran']))
+            else:
+                b.obj = odl.DiagonalOperator(*ops)
+        else:
+            nr, nc = node['shape']
+            mat = [[ops[i * nc + j] for j in range(nc)] for i in range(nr)]
+            if node['how'] == 'kwargs':
+                b.obj = odl.ProductSpaceOperator(
+                    mat, domain=env.set(node['dom']),
+                    range=env.set(node['ran']))
+            else:
+                b.obj = odl.ProductSpaceOperator(mat)
+        return b
     A = b.kids[0].obj
     B = b.kids[1].obj if len(b.kids) > 1 else None
     how = node.get('how', 'op')
@@ -1056,8 +1349,8 @@ def walk(b):
 
 
 def tree_depth(node):
-    kids = [node[k] for k in ('a', 'b') if k in node] + list(
-        node.get('kids', []))
+    kids = [node[k] for k in ('a', 'b') if k in node] + [
+        k for k in node.get('kids', []) if k is not None]
     return 0 if not kids else 1 + max(tree_depth(k) for k in kids)
 
 
@@ -1090,7 +1383,18 @@ def true_linear(node):
     return False
 
 
-EXTRA_LINEAR = set()
+EXTRA_LINEAR = {'broadcast', 'reduction', 'diagonal', 'pspaceop'}
+
+
+NONHOLO_LEAVES = {'realpart', 'imagpart', 'cmod', 'cmodsq', 'norm', 'dist',
+                  'ufunc_abs', 'l1', 'l2', 'l2sq', 'pwnorm'}
+
+
+def nonholomorphic(types, node):
+    """True if the tree contains a leaf on a complex domain that is not
+    complex-differentiable (its derivative is only real-linear)."""
+    return any(n['op'] == 'leaf' and n['kind'] in NONHOLO_LEAVES
+               and tinfo(types, n['dom']).cplx for n in tree_nodes(node))
 
 
 def real_linear_only(types, node):
@@ -1211,6 +1515,31 @@ class Interp(object):
             return y
         if op == 'translated':
             return self.ev(A, vsub(x, b.vec_np))
+        if op == 'broadcast':
+            return [self.ev(k, x) for k in b.kids]
+        if op == 'diagonal':
+            return [self.ev(k, xi) for k, xi in zip(b.kids, x)]
+        if op == 'reduction':
+            acc = None
+            for k, xi in zip(b.kids, x):
+                y = self.ev(k, xi)
+                acc = y if acc is None else vadd(acc, y)
+            return acc
+        if op == 'pspaceop':
+            nr, nc = node['shape']
+            R = self.env.info(node['ran'])
+            out = []
+            for i in range(nr):
+                acc = None
+                for j in range(nc):
+                    k = b.kids[i * nc + j]
+                    if k is None:
+                        continue
+                    y = self.ev(k, x[j])
+                    acc = y if acc is None else vadd(acc, y)
+                out.append(self.env.zero_value(R.parts[i]) if acc is None
+                           else acc)
+            return out
         ext = EXTRA_CTOR_EVAL.get(op)
         if ext is None:
             raise HarnessError('unknown constructor {!r}'.format(op))
@@ -1231,6 +1560,14 @@ def leaf_margin(env, node, x):
     kind, a = node['kind'], node['args']
     if kind in ('cmod', 'ufunc_abs', 'l1'):
         return _minabs(x)
+    if kind == 'pwnorm':
+        p = a.get('exponent')
+        p = 2.0 if p is None else float(p)
+        arrs = [np.abs(np.asarray(c)) for c in x]
+        if p < 2:
+            # every component must stay away from zero
+            return float(min(np.min(c) for c in arrs))
+        return float(np.min(np.sqrt(sum(c ** 2 for c in arrs))))
     if kind in ('norm', 'l2'):
         return float(np.sqrt(np.sum(np.abs(vflat(x)) ** 2)))
     if kind == 'dist':
